@@ -479,6 +479,15 @@ fn part_d(ctx: &Arc<Ctx>) {
 		}
 		inputs.push((format!("in_{name}.versatiles"), stored, extra));
 	}
+	// a directory whose files hold gzip data but are named like plain tiles, read with --override-input-compression
+	{
+		let files: Vec<(String, Vec<u8>)> = decoded.iter().map(|(k, p)| (format!("{}/{}/{}.pbf", k.0, k.1, k.2), codec::encode_with(1, p))).collect();
+		codec::dir_write(&work.0.join("in_labdir"), &files).unwrap();
+		inputs.push(("in_labdir".to_string(), 1, vec!["--override-input-compression".to_string(), "gzip".to_string()]));
+		let files: Vec<(String, Vec<u8>)> = decoded.iter().map(|(k, p)| (format!("{}/{}/{}.pbf.gz", k.0, k.1, k.2), p.clone())).collect();
+		codec::dir_write(&work.0.join("in_labdir2"), &files).unwrap();
+		inputs.push(("in_labdir2".to_string(), 0, vec!["--override-input-compression".to_string(), "uncompressed".to_string()]));
+	}
 	// the gzip input once more in every other container format (the command picks reader and writer by file name)
 	{
 		let tiles: TileMap = decoded.iter().map(|(k, p)| (*k, codec::encode_with(1, p))).collect();
